@@ -24,6 +24,7 @@ ASSERT_MACROS = {"assert", "assert_eq", "assert_ne", "debug_assert", "debug_asse
 # (short function name, macro) -> reason
 TRIAGED = {
     ("capacity_to_buckets_size", "panic"): "documented and tested behaviour for HashBucketsParam::Capacity(0)",
+    ("header-check", "panic"): "an open-time header check refuses foreign files by panicking (C13); `assert!(c)` and `if !c { panic!() }` are the same thing",
     ("db_map_string_with_params", "panic"): "infeasible: follows a successful insert into the same registry",
     ("db_map_bytes_with_params", "panic"): "infeasible: follows a successful insert into the same registry",
     ("db_map_i64_with_params", "panic"): "infeasible: follows a successful insert into the same registry",
@@ -68,7 +69,8 @@ def _check_own(ctx):
     n_div = 0
     # triage entries are keyed by the pinned tree's names: private functions are mapped back through their role
     role_name = {}
-    for r_, canon_ in (("CAP2BUCKETS", "capacity_to_buckets_size"),):
+    for r_, canon_ in (("CAP2BUCKETS", "capacity_to_buckets_size"), ("HDR_CHECK_KEY", "header-check"), ("HDR_CHECK_VAL", "header-check"),
+                       ("HDR_CHECK_HTX", "header-check")):
         f_ = R.get(r_)
         if f_ is not None:
             role_name[f_.id] = canon_
